@@ -68,7 +68,7 @@ def check_img(col, attrs):
         col.fail("C17.img-equivalence", case, "<img> and the image directive differ: " + "".join(difflib.unified_diff(norm(d2.pformat()).splitlines(True), norm(d1.pformat()).splitlines(True)))[:500], known=known,
                  function="myst_parser.mdit_to_docutils.html_to_nodes:html_to_nodes")
     imgs = list(d1.findall(nodes.image))
-    if imgs and not l1 and "alt" in attrs and imgs[0].get("alt") != attrs["alt"]:
+    if imgs and "alt" in attrs and imgs[0].get("alt") != attrs["alt"]:
         known = "C17-attr-roundtrip" if any(c in attrs["alt"] for c in "\n:#\"'|") or attrs["alt"] != attrs["alt"].strip() else None
         col.fail("C17.img-values", case, f"image[alt] = {imgs[0].get('alt')!r}, attribute value {attrs['alt']!r}", known=known)
 
